@@ -40,7 +40,7 @@ var c18Variants = []string{"own-alone", "own-then-others", "others-then-own", "o
 func genC18(t *tape.Tape, tier string) any {
 	c := &c18Case{}
 	c.Topology = []string{"single", "self-loop", "two-loop"}[t.Pick(6, 2, 2)]
-	c.NameA = []string{"forwarder", "fwd-a", "p", "Edge-EU-1", "Forwarder"}[t.Pick(3, 1, 1, 1, 1)]
+	c.NameA = []string{"forwarder", "fwd-a", "p", "Edge-EU-1", "Forwarder", ""}[t.Pick(3, 1, 1, 1, 1, 1)] // ("": an instance configured without a name)
 	c.NameB = c.NameA
 	if t.Chance(1, 2) {
 		c.NameB = "fwd-b"
